@@ -3,7 +3,7 @@ from vf import gen, skel
 from vf.xh import Ob
 
 
-D2_STRIDE = {"quick": 401, "thorough": 11}
+D2_STRIDE = {"quick": 401, "thorough": 97}
 
 
 def skeletons(tier):
@@ -11,7 +11,7 @@ def skeletons(tier):
     for name, sk in gen.depth1():
         out.append(("m:" + name, sk))
     for i, (name, sk) in enumerate(gen.depth1(in_fn=True)):
-        if tier == "thorough" or i % 5 == 0 or "sr" in name:
+        if (tier == "thorough" and i % 2 == 0) or i % 5 == 0 or "sr" in name:
             out.append(("f:" + name, ("call", ("fn", ("[",), sk))))
     for name, sk in gen.depth2(stride=D2_STRIDE[tier]):
         out.append(("m2:" + name, sk))
